@@ -5,6 +5,20 @@ HERE = os.path.dirname(os.path.dirname(os.path.abspath(__file__)))
 props = [json.loads(l)["id"] for l in open(os.path.join(HERE, "properties.jsonl"))]
 
 CHECKS = {
+ "C19": dict(
+    category="model_checking",
+    text="RouteCache.tla models both indexes of RouterInfoCache (routers[snet][addr] -> dnets with status, path[(snet,dnet)] -> addr) with "
+         "Update / DeleteRouter / DeleteDnets / Renumber / UpdateStatus; TLC checks Coherent (OneNextHop, LookupsLead, NothingElse, "
+         "OnlyAttached) and the action properties NewestWins and DeleteExact on the full 2 x 3 x 4 universe (thorough: closed with no "
+         "length bound, 66 k states; Apalache discharges the inductive invariant); each named deviation (pinned tree) violates the "
+         "expected formula. Binding: every edge of TLC's graph is executed on a real RouterInfoCache and a sample on a real node fed with "
+         "I-Am-Router-To-Network / SADR-revealing traffic / Network-Number-Is, with a probe packet to every destination network after each "
+         "step (TrafficFollowsKnowledge); random histories of 300 operations at both levels; all judged by TLC (Trace_RouteCache.tla).",
+    design_ref="DESIGN.md 5 (C19), Appendix A.3",
+    note="Trusted: TLC, the projection of the two dictionaries and the probe observer in c19.py (frames decoded with the library's NPDU "
+         "decoder). Renumbering onto an already populated network is a precondition violation and not exercised; an empty announcement "
+         "from an unknown router leaves an empty record (counted, not judged).",
+    technique="TLA+ spec (RouteCache.tla) + TLC exhaustive (+ Apalache inductive invariant); full edge-cover replay on the real cache and node; TLC trace validation"),
  "C20": dict(
     category="model_checking",
     text="Calendar.tla (leap years, day-of-week, date / range / week-n-day patterns with all wildcards) and Schedule.tla (Value from the "
@@ -99,6 +113,36 @@ CHECKS = {
     note="Trusted: TLC; harness/idsrig.py (adversary + projection). Unsegmented frames only (the lookup code is shared with segmented ones, "
          "whose state machines are C04/C05). Exhaustive in a reduced ID space; the real modulus by trace validation.",
     technique="TLA+ spec (TSMids.tla) + TLC exhaustive with adversarial delivery; state-graph replay; TLC trace validation of recorded real executions"),
+ "C16": dict(
+    category="model_checking",
+    text="COV.tla models subscriptions (subscriber, process id, object) with confirmed flag / lifetime / expiry, change detection against "
+         "the last reported value with burst coalescing, the deferred drain, expiry and the active-subscriptions list; the eight monitors "
+         "(AckThenInitial, OnePerBurstPerSubscription, NoneForSubThreshold, NothingAfterCancelOrExpiry, ConfirmedAsRequested, TimeRemaining, "
+         "RenewReplaces, ActiveListExact) are written over inputs, outputs and ghost variables only. TLC checks them exhaustively on four "
+         "slices (1 analog + 1 binary object, 2 subscribers, lifetimes {0,1,2}, 4-point value grid; depth 4-10) plus simulation to depth 12; "
+         "the named deviation (renew keeps old parameters = the pinned tree) violates them. Binding: walks of two dumped state graphs are "
+         "driven through real device + subscriber stacks over a VLAN, and random timelines (1-3 subscribers, lifetimes 0..120 s, analog / "
+         "binary / multi-state / pulse-converter objects, bursts, sub-increment steps, virtual time across every expiry) are recorded and "
+         "judged by TLC (Trace_COV.tla; ghosts recomputed by TLC from the events).",
+    design_ref="DESIGN.md 5 (C16), Appendix A.5",
+    note="Trusted: TLC, the stack builder and projection in c16.py. Loss-free VLAN, subscribers acknowledge at once; SubscribeCOVProperty and "
+         "covPeriod are not exercised. 'Last reported value' is per object, as the code implements and as the property is read. The full "
+         "configuration is exhaustive to depth 4-5 only; deeper on slices and by simulation.",
+    technique="TLA+ spec (COV.tla) + TLC exhaustive/simulation; state-graph walks replayed on real stacks; TLC trace validation of recorded timelines"),
+ "C17": dict(
+    category="model_checking",
+    text="Cmd.tla models the 16-slot priority array, present value, relinquish default and the minimum on/off hold at priority 6 with "
+         "relative deadlines (finite graph: command sequences of every length); TLC checks PVIsHighest, SlotIsLastCommand, "
+         "BadWriteChangesNothing, MinOnOffHold on the complete graphs (4-6 slots x 3 values, min on/off {0..3}^2), all 17 priority arguments "
+         "by simulation, and shows the swapped-times deviation violates MinOnOffHold. Binding: every (pre-state, command, post-state) triple "
+         "of TLC's graph is replayed on each of the 20 commandable classes, by direct WriteProperty calls and by WriteProperty requests over "
+         "the wire, reading back presentValue and all 16 slots; random sequences of length 100 over all 16 priorities with virtual time for "
+         "the binary classes; all executions judged by TLC (Trace_Cmd.tla).",
+    design_ref="DESIGN.md 5 (C17), Appendix A.5",
+    note="Trusted: TLC, the per-class value table and projection in c17.py. Subclasses are registered with a vendor id as the samples do. "
+         "With a minimum time configured the environment does not command priority 6 itself. Apalache inductive step does not finish "
+         "under the timeout (opt-in); the 16-priority range rests on simulation + random traces.",
+    technique="TLA+ spec (Cmd.tla) + TLC exhaustive on the complete graph; graph-triple replay on all 20 classes (direct and over the wire); TLC trace validation"),
  "C18": dict(
     category="model_checking",
     text="Addr.tla defines, on notation descriptors, what each accepted notation denotes (type, network, station octets, and for IP forms "
